@@ -14,6 +14,8 @@ CONSTANTS
   HVals = {0}
   HMod = 840
   MaxSched = 1000
+  FaultKinds = {"sel", "root", "cp", "selerr", "rooterr", "cperr"}
+  Deviation = "none"
   MaxFired = 1000
 INVARIANTS TraceTypeOK EverySlotOfWindow OnlySlotsOfWindow JobOrder SignedOverObtainedRoot MembersIndependent AggregatorRuleExact
 CONSTRAINT HWM
